@@ -19,8 +19,8 @@ from .. import compare, env, rng
 from ..storage import Storage, make_ths
 
 RULE = {'C09': 'seeded scenarios (two trace sets per run, 1-3 runs, batch rule, frame, 0-2 preprocesses, dtype, precision, worker counts per thread, '
-               'batch-rule flip) each executed under several seeded scheduling policies at line granularity; fault scenarios inject a storage or '
-               'preprocess failure in thread 1, 2 or both on the k-th batch; non-trivial = at least one context switch between the accumulator '
+               'batch-rule flip) each executed under several seeded scheduling policies (uniform, sticky, starve-1/2, alternate, main-first/last, PCT, post-fault-uniform) at line granularity; fault scenarios inject a storage or '
+               'preprocess failure in thread 1, 2 or both on the k-th batch, in one or two run() calls of the same object; non-trivial = at least one context switch between the accumulator '
                'threads while both were mid-container or a fault fired; distinct = distinct context-switch digests (sequence of (yield site, chosen thread) hand-overs)'}
 SIM_TIME_UNIT = {'C09': 'scheduler decisions (yield points)'}
 ASSUMPTIONS = {'C09': [
@@ -29,6 +29,8 @@ ASSUMPTIONS = {'C09': [
     'Welch reference in exact rational arithmetic on the frame/preprocess image; compared within a forward rounding-error bound of the requested precision; '
     'entries whose reference denominator is zero or whose bound exceeds half the value are not compared',
     'how quickly the surviving thread stops after a failure is not judged; the harness drains it after run() has returned',
+    'after a failed run() the value of later results is not judged (partial accumulation is schedule dependent); a later healthy run must return normally and grow each accumulator by its own set, a later failing run must re-raise',
+    'a timed join sleeps for 25 scheduler decisions of simulated time or until the target is done',
     'join(X) may return when X is done or when X._tstate_lock is unlocked (scared releases that lock by hand)']}
 
 REPO_PREFIX = os.path.join(env.REPO, 'scared') + os.sep     # refreshed from scared.__file__ at first use
